@@ -271,6 +271,7 @@ def _sample_regime(S, vectorised, regime, cons):
 def unit_flatten(S):
     """flatten_axes(None) on an (E, S)-shaped buffer: out.f[e*S+s] = in.f[e,s] for every array leaf of rank >= 2;
     leaves of lower rank (position) are returned untouched."""
+    S.default_replay = native_sample_replay
     S.under_contract(F_FLAT)
     C, N = symbolic_dims("C, N")
     ctx = Ctx()
